@@ -139,13 +139,25 @@ def scenario_for(seed, index, tier):
         # a slow early listener: every k-th packet costs it some time
         slow = {'every': rng.choice([1, 3, 10]),
                 'us': rng.choice([1000, 30000, 200000])}
+    negotiate = None
+    if rng.random() < 0.12:
+        # play is reached through version negotiation (status query first,
+        # then the thread hand-over to the login connection), and an
+        # ordinary listener on the status response may keep the first
+        # networking thread busy for a while
+        import json as _json
+        negotiate = {'linger_us': rng.choice([0, 300000, 1500000, 4000000]),
+                     'status': {'status': {'mode': 'reply', 'json': _json.dumps({
+                         'version': {'name': 'sim', 'protocol': proto},
+                         'description': {'text': 'c11'}})}}}
     return {
+        'negotiate': negotiate,
         'slow_listener': slow, 'flood': flood,
         'proto': proto, 'compress': compress, 'history': hist,
         'user_packets': user_packets, 'kick': kick, 'reason': reason,
-        'server': {'conns': [dict({'login': login, 'play': play},
-                                  **({'close_mode': 'rst'} if kick_rst
-                                     else {}))]},
+        'server': {'conns': ([negotiate['status']] if negotiate else []) + [
+            dict({'login': login, 'play': play},
+                 **({'close_mode': 'rst'} if kick_rst else {}))]},
         'kick_rst': kick_rst,
         'net': net,
         'sched': {'granularity': 'io' if rng.random() < 0.7 else 'line',
@@ -171,7 +183,12 @@ def execute(scenario, tape):
         from minecraft.networking.connection import Connection
         from minecraft.networking.packets import Packet, serverbound
         conn = Connection('sim.example', 25565, username='player',
-                          allowed_versions=[scenario['proto']],
+                          allowed_versions=(
+                              [scenario['proto'],
+                               max(p_ for p_ in common.supported()
+                                   if p_ != scenario['proto'])]
+                              if scenario.get('negotiate')
+                              else [scenario['proto']]),
                           handle_exception=lambda e, i: st['errs'].append(e),
                           handle_exit=lambda: st['exits'].append(w.sim.seq))
         w.conn = conn
@@ -191,6 +208,11 @@ def execute(scenario, tape):
                         conn.write_packet(serverbound.play.ChatPacket(
                             message='f%d' % i))
         conn.register_packet_listener(on_packet, Packet, early=True)
+        if scenario.get('negotiate') and scenario['negotiate']['linger_us']:
+            from minecraft.networking.packets import clientbound
+            conn.register_packet_listener(
+                lambda p: w.sleep(scenario['negotiate']['linger_us']),
+                clientbound.status.ResponsePacket)
 
         def user():
             st['connect'] = w.api('connect', conn.connect)
@@ -235,10 +257,13 @@ def check(scenario, w, st, res, ids):
     if sim.end_state != 'done':
         V.append(('C11/%s' % sim.end_state, repr(sim.end_detail)))
         return
-    if not w.server.apps:
+    off = 1 if scenario.get('negotiate') else 0
+    if len(w.server.apps) <= off:
         V.append(('C11/no-connection', None))
         return
-    app = w.server.apps[0]
+    app = w.server.apps[off]
+    if off:
+        res.probes['play-after-version-negotiation'] = 1
     ob()
     if st['errs']:
         if scenario.get('kick') and (sim.stats.get('fault.send-error') or
@@ -397,7 +422,7 @@ def shrink_scenario(sc):
                                          '{"text":"end of history"}')])
         if c.get('kick'):
             play.append(['close'])
-        c['server']['conns'][0]['play'] = play
+        c['server']['conns'][-1]['play'] = play
         return c
     n = len(hist)
     if n > 1:
@@ -421,7 +446,7 @@ def shrink_scenario(sc):
     if sc['compress'] is not None:
         c = copy.deepcopy(sc)
         c['compress'] = None
-        c['server']['conns'][0]['login'] = [['success']]
+        c['server']['conns'][-1]['login'] = [['success']]
         yield c
     for k in ('segment', 'short_read'):
         if sc['net'].get(k):
